@@ -76,6 +76,8 @@ func runC20(c *Ctx, r *Report) {
 	hasKeyPolarity(c, r)
 	keystoreAddressing(c, r)
 	r.Doc("R-C20.9", "the keystore and the identity code examine every error result before going on: a failed datastore write, key decode or signature is never followed by a cached key or a returned identity")
+	r.Doc("R-C20.14", "the keystore writes to the datastore it was given, directly (a write-behind wrapper keeps keys where no other keystore over the same datastore sees them)")
+	constructorKeepsArgument(c, r, "R-C20.14", "keystore", "NewKeystore", "Keystore", "store", "keys created through this keystore are not in the datastore when another keystore over it (or this one after a restart) looks for them: the key is reported absent and a second, different identity is created for the same id")
 	errDiscipline(c, r, "R-C20.9", func(fn *Fn) bool { return inPkgs(c.P, fn, "keystore", "identityprovider") },
 		"a key or identity is handed out although creating, storing, decoding or signing it failed — another keystore over the same datastore then sees a different (or no) key for the id", deliberateDiscards)
 
